@@ -56,10 +56,13 @@ type CA7 struct {
 }
 
 type CA8 struct {
-	F0 int64
-	F1 string
-	F2 []*InA
-	F3 MyFloat32
+	hidden int64
+	F0     int64
+	Skip   string `graphql:"-"`
+	F1     string
+	F2     []*InA
+	F3     MyFloat32
+	H      *InH
 }
 
 // staticFn builds the field func of a fixture as an ordinary closure over T.
